@@ -137,6 +137,50 @@ def implies_truthy(test, want, name):
     return False
 
 
+def implies_atom(test, want, atom):
+    """True iff (test evaluates to `want`) implies the fact described by `atom`.  atom(expr, polarity) answers, for a leaf expression,
+    whether `expr` evaluating to `polarity` establishes the fact (e.g. fact `x is None`: (`x is None`, True) and (`x is not None`, False))."""
+    if isinstance(test, ast.UnaryOp) and isinstance(test.op, ast.Not):
+        return implies_atom(test.operand, not want, atom)
+    if isinstance(test, ast.BoolOp):
+        if isinstance(test.op, ast.And):
+            return any(implies_atom(e, True, atom) for e in test.values) if want else all(implies_atom(e, False, atom) for e in test.values)
+        return all(implies_atom(e, True, atom) for e in test.values) if want else any(implies_atom(e, False, atom) for e in test.values)
+    return bool(atom(test, want))
+
+
+def established_by_enclosing_ifs(n, top, atom):
+    """The fact `atom` holds whenever statement `n` is reached, by the `if` statements that enclose it inside `top` (the branch `n` lies in
+    is taken into account: body = test true, orelse = test false; an `elif` chain nests in orelse)."""
+    cur, child = getattr(n, "_parent", None), n
+    while cur is not None and child is not top:
+        if isinstance(cur, ast.If):
+            in_body = any(child is s for s in cur.body)
+            in_else = any(child is s for s in cur.orelse)
+            if (in_body and implies_atom(cur.test, True, atom)) or (in_else and implies_atom(cur.test, False, atom)):
+                return True
+        child, cur = cur, getattr(cur, "_parent", None)
+    return False
+
+
+def compare_atom(name, value, equal=True):
+    """atom for `implies_atom`: the variable `name` is (equal=True) / is not (equal=False) the constant `value` (None via is / ==)."""
+    def atom(expr, polarity):
+        if not (isinstance(expr, ast.Compare) and len(expr.ops) == 1):
+            return False
+        l, r, op = expr.left, expr.comparators[0], expr.ops[0]
+        if isinstance(r, ast.Name) and isinstance(l, ast.Constant):
+            l, r = r, l
+        if not (isinstance(l, ast.Name) and l.id == name and isinstance(r, ast.Constant) and r.value == value and type(r.value) is type(value)):
+            return False
+        if isinstance(op, (ast.Eq, ast.Is)):
+            return polarity == equal
+        if isinstance(op, (ast.NotEq, ast.IsNot)):
+            return polarity != equal
+        return False
+    return atom
+
+
 def implies_truthy_neg(operand, want, name):
     # test is `not operand`; it evaluates to `want` iff operand evaluates to `not want`
     return implies_truthy(operand, not want, name)
